@@ -110,7 +110,7 @@ Valid(root, known, dev, s, i) ==
             IN /\ isProp => Valid(root, known, dev, s.pv[CHOOSE j \in 1..Len(s.pk) : s.pk[j] = i.k[m].x], i.v[m])
                /\ \A j \in pats : Valid(root, known, dev, s.ppv[j], i.v[m])
                /\ (~isProp /\ pats = {}) =>
-                    /\ (Has(s,"addPropsB") => s.addPropsB)
+                    /\ (Has(s,"addPropsB") => (s.addPropsB \/ ("SpecialMembersExempt" \in dev /\ i.k[m].x \in {"id", "%24schema"})))
                     /\ (Has(s,"addPropsS") => Valid(root, known, dev, s.addPropsS, i.v[m]))
        /\ Has(s,"depk") => \A j \in 1..Len(s.depk) : HasKey(i, s.depk[j]) =>
             IF "p" \in DOMAIN s.depv[j]
